@@ -27,6 +27,8 @@ class ExprError(Exception):
 
 
 def _myround(number_to_round, decimal_places):
+    # more than +-400 digits cannot change a float; do not build 10**digits
+    decimal_places = max(-400, min(400, int(decimal_places)))
     if int(decimal_places) == 0 and round(number_to_round + 1) - round(number_to_round) != 1:
         return number_to_round + abs(number_to_round) / number_to_round * 0.5  # simulate Python 2 rounding
         # via https://stackoverflow.com/questions/21839140/
